@@ -169,10 +169,19 @@ def run (ctx):
     c = [c for c in q.node_calls(h) if call_name(c) == 'send' and norm(c.func.value) == 'deferredSender'][0]
     ctx.ob('R-AGREE', csend, "hand-off passes this connection and the pending data", len(c.args) == 2 and norm(c.args[0]) == 'self' and norm(c.args[1]) == data, norm(c), (mod, c), 'D3')
   # partial write: the suffix assignment dominates the hand-off on that branch
-  cut = [q.enclosing_stmt_node(g, s_) for t, v, s_, k in q.stores_in(csend.node) if isinstance(t, ast.Name) and t.id == data and v is not None and norm(v) == '%s[l:]' % data]
-  part_h = [h for h in handoff if any(f.startswith('l != len(') for f in q.fact_strs(g, h))]
+  # the count returned by the direct write, whatever the local is called
+  cnt = None
+  for d_ in direct:
+    if isinstance(d_.ast, ast.Assign) and isinstance(d_.ast.targets[0], ast.Name): cnt = d_.ast.targets[0].id
+  cut = [q.enclosing_stmt_node(g, s_) for t, v, s_, k in q.stores_in(csend.node) if isinstance(t, ast.Name) and t.id == data and v is not None and cnt and norm(v) == '%s[%s:]' % (data, cnt)]
+  # hand-offs that follow a short write: reachable from the write (no exception) when count != len(data)
+  part_h = []
+  if cnt and direct:
+    short = q.Env({'%s == len(%s)' % (cnt, data): False, '%s != len(%s)' % (cnt, data): True, '%s < len(%s)' % (cnt, data): True})
+    rr = q.reach_under(repo, mod, g, short, con, start=direct[0], exc=False)
+    part_h = [h for h in handoff if h in rr]
   good = bool(cut) and bool(part_h) and all(g.dominates(cut[0], h) for h in part_h)
-  ctx.ob('R-ORDER', csend, "after a short direct write only the unsent suffix is queued", good, "data = data[l:] dominates the hand-off" if good else "the whole buffer (or nothing) is queued after a short write", csend, 'D3')
+  ctx.ob('R-ORDER', csend, "after a short direct write only the unsent suffix is queued", good, "data = data[count:] dominates the hand-off" if good else "the whole buffer (or nothing) is queued after a short write", csend, 'D3')
   # ---- D4 lock ---------------------------------------------------------------------------------
   n_lock = 0
   for f in ds.methods.values():
@@ -228,7 +237,7 @@ def run (ctx):
   g = q.cfg_of(sfast)
   direct = g.nodes_with_call(lambda c: call_name(c) == 'send' and norm(c.func.value) == 'self.socket')
   ctx.floor('send_fast direct write', len(direct), 1)
-  base = {'len(self.send_buf) == 0': True, 'self._connecting': False, 'self.closed': False, 'self._ready_to_send': False}
+  base = {'len(self.send_buf)': 0, 'self.send_buf': b'', 'self._connecting': False, 'self.closed': False, 'self._ready_to_send': False}
   def R (over):
     e = dict(base); e.update(over)
     return q.reach_under(repo, iom, g, q.Env(e), riw, exc=True)
@@ -236,8 +245,8 @@ def run (ctx):
   ctx.ob('R-DOM', sfast, "a closed worker never writes to its socket again", not any(d in R({'self.closed': True}) for d in direct),
          "socket.send unreachable when self.closed" if not any(d in R({'self.closed': True}) for d in direct) else
          "with self.closed true the direct socket.send is still reachable: after a fatal error the worker writes to the socket again", sfast, 'D5')
-  ctx.ob('R-DOM', sfast, "no direct write while earlier bytes are still buffered", not any(d in R({'len(self.send_buf) == 0': False, 'self._ready_to_send': True}) for d in direct),
-         "unreachable with a non-empty send buffer" if not any(d in R({'len(self.send_buf) == 0': False, 'self._ready_to_send': True}) for d in direct) else "direct write overtakes buffered bytes", sfast, 'D5')
+  ctx.ob('R-DOM', sfast, "no direct write while earlier bytes are still buffered", not any(d in R({'len(self.send_buf)': 3, 'self.send_buf': b'abc', 'self._ready_to_send': True}) for d in direct),
+         "unreachable with a non-empty send buffer" if not any(d in R({'len(self.send_buf)': 3, 'self.send_buf': b'abc', 'self._ready_to_send': True}) for d in direct) else "direct write overtakes buffered bytes", sfast, 'D5')
   ctx.ob('R-DOM', sfast, "no direct write while still connecting", not any(d in R({'self._connecting': True, 'self._ready_to_send': True}) for d in direct), "unreachable while connecting", sfast, 'D5')
   rts = iow.methods.get('_ready_to_send')
   if rts is not None:
